@@ -107,9 +107,23 @@ func quote(s string) string { return "'" + s + "'" }
 func render(n *Node) string { return renderStyle(n, false) }
 
 // renderStyle: lower=true writes and / or / not in lower case (SQL keywords are case-insensitive).
-func renderStyle(n *Node, lower bool) string {
+func renderStyle(n *Node, lower bool) string { return renderStyle2(n, lower, false) }
+
+// titleFns makes renderTo write function names with an initial capital.
+var titleFns bool
+
+func fnName(s string) string {
+	if titleFns && s != "" {
+		return strings.ToUpper(s[:1]) + s[1:]
+	}
+	return s
+}
+
+func renderStyle2(n *Node, lower, title bool) string {
 	var sb strings.Builder
+	titleFns = title
 	renderTo(&sb, n)
+	titleFns = false
 	out := sb.String()
 	if lower {
 		out = lowerLogic(out)
@@ -176,7 +190,7 @@ func renderTo(sb *strings.Builder, n *Node) {
 		renderTo(sb, n.K[0])
 		sb.WriteString(" IS NOT NULL")
 	case "call":
-		sb.WriteString(n.V + "(")
+		sb.WriteString(fnName(n.V) + "(")
 		for i, k := range n.K {
 			if i > 0 {
 				sb.WriteString(", ")
